@@ -440,7 +440,7 @@ func checkMain() int {
 	perHarness := map[string]interface{}{}
 	for _, r := range runs {
 		harnessNames = append(harnessNames, r.fn.Name())
-		perHarness[r.fn.Name()] = map[string]interface{}{"paths": r.res.Stats.Paths, "queries": r.res.Stats.Queries, "asserts": r.res.Stats.Asserts, "reached": r.res.Stats.Reached, "wall_s": r.res.Wall.Seconds(), "aborts": len(r.res.Aborts), "engine_or_target_panics": len(r.res.Panics), "counterexamples": len(r.res.Violations)}
+		perHarness[r.fn.Name()] = map[string]interface{}{"paths": r.res.Stats.Paths, "queries": r.res.Stats.Queries, "asserts": r.res.Stats.Asserts, "solver_timeouts_retried": r.res.Stats.Retries, "reached": r.res.Stats.Reached, "wall_s": r.res.Wall.Seconds(), "aborts": len(r.res.Aborts), "engine_or_target_panics": len(r.res.Panics), "counterexamples": len(r.res.Violations)}
 	}
 	assumeList := []string{}
 	brokenMsgsOut := append([]string{}, brokenMsgs...)
